@@ -154,6 +154,97 @@ def heuristic_shape(ck, w, rule_id):
     return True
 
 
+class Guard:
+    """A test that decides the reuse of basis addresses: where it is evaluated (`inner_body`, `inner_event`), where the caller
+    sees it (`event` in copy_file), and the edges of copy_file on which it is known to have been TRUE."""
+
+    def __init__(self, event, inner_body, inner_event, true_edges, how):
+        self.event, self.inner_body, self.inner_event, self.true_edges, self.how = event, inner_body, inner_event, set(true_edges), how
+
+    def site(self):
+        return self.event.site()
+
+    def switches(self):
+        return {u for (u, v) in self.true_edges}
+
+
+_OPT_THROUGH = [r"^std::option::Option::<T>::(map|as_ref|as_mut|copied|cloned|filter|inspect)$"]
+
+
+def _value_switch_edges(lib, body, ev, what):
+    """Edges of `body` decided by the Option produced by call `ev` (followed through map / filter / as_ref, also when it was
+    put into a tuple that is then matched): what='some' - taken when it is Some; what='payload' - taken when it is Some(true)."""
+    out = set()
+    own = ev.name.rsplit("::", 1)[1]
+    thru = [r"^std::option::Option::<T>::(%s)$" % "|".join(m for m in ("map", "as_ref", "as_mut", "copied", "cloned", "filter", "inspect") if m != own)] \
+        if what == "some" else [r"^std::option::Option::<T>::(as_ref|as_mut|copied|cloned|inspect)$"]
+    for bb in sorted(body.live):
+        t = body.blocks[bb]["term"]
+        if t["tk"] != "switch":
+            continue
+        arms = {int(a[0]): a[1] for a in t["arms"]}
+        d = t["discr"]
+        if d.get("k") == "const":
+            continue
+        if what == "some":
+            dl = flow.operand_local(d)
+            for st in reversed(body.blocks[bb]["stmts"]):
+                if st["sk"] == "assign" and st["pl"]["l"] == dl and not st["pl"]["p"]:
+                    if st["rv"]["rk"] == "discr":
+                        oo = flow.origins_x(lib, body, {"k": "copy", "pl": st["rv"]["pl"]}, through_calls=thru)
+                        if any(x[0] == "call" and x[1] == ev.name and x[2] == ev.bb for x in oo):
+                            tgt = arms.get(1, t["otherwise"] if 0 in arms else None)
+                            if tgt is not None:
+                                out.add((bb, tgt))
+                    break
+        else:
+            if not d["pl"]["p"] or body.locals[d["pl"]["l"]] == "bool":
+                continue
+            oo = flow.origins_x(lib, body, d, through_calls=thru)
+            if any(x[0] == "call" and x[1] == ev.name and x[2] == ev.bb for x in oo):
+                tgt = t["otherwise"] if 0 in arms else arms.get(1)
+                if tgt is not None:
+                    out.add((bb, tgt))
+    return out
+
+
+def _closure_bodies(lib, body, op):
+    return [lib.bodies[oo[1]] for oo in flow.origins(body, op) if oo[0] == "agg" and oo[1] in lib.bodies]
+
+
+def heuristic_guards(w, cfb):
+    """Where copy_file learns that content_heuristically_unchanged(source, basis) is true: a direct call that is branched on
+    (also through a bool local or a private bool helper), or a closure given to Option::filter whose `true` implies it -
+    then the guard holds wherever the filtered Option (or what is mapped from it) is Some."""
+    lib = w.lib
+    out = []
+    for ps in rules.predicate_sites(lib, cfb, HEUR):
+        out.append(Guard(ps.event, ps.inner_body, ps.inner_event, ps.edges[True], "call"))
+    for e in cfb.events:
+        if e.bb in cfb.live and e.name == "std::option::Option::<T>::filter" and len(e.args) > 1:
+            for cb in _closure_bodies(lib, cfb, e.args[1]):
+                if rules.helper_implies(lib, cb, HEUR, True, True):
+                    inner = [x for x in cb.events if x.bb in cb.live and (x.resolved or x.callee) == HEUR][0]
+                    out.append(Guard(e, cb, inner, _value_switch_edges(lib, cfb, e, "some"), "Option::filter"))
+    return out
+
+
+def presence_guards(w, cfb):
+    """Where copy_file learns that every block of the basis entry is present: an all(contains) test / named predicate that is
+    branched on, or a presence closure given to Option::map - then the guard holds where the mapped Option is Some(true)."""
+    lib = w.lib
+    out = []
+    for e in presence_tests(w, cfb):
+        out.append(Guard(e, cfb, e, rules.bool_switch_edges(cfb, e, True) | rules.joined_bool_edges(cfb, e, True), "call"))
+    for e in cfb.events:
+        if e.bb in cfb.live and e.name == "std::option::Option::<T>::map" and len(e.args) > 1:
+            for cb in _closure_bodies(lib, cfb, e.args[1]):
+                inner = presence_tests_in(w, cb)
+                if inner and (cb.ret or "") == "bool" and _presence_predicate(w, cb):
+                    out.append(Guard(e, cb, inner[0], _value_switch_edges(lib, cfb, e, "payload"), "Option::map"))
+    return out
+
+
 def reuse_guarded(ck, w, rule_id):
     """GUARD: the only construction that copies basis addrs is behind heuristic==true and
     all(contains)==true, with the heuristic applied to (source_entry, basis_entry)."""
@@ -163,8 +254,8 @@ def reuse_guarded(ck, w, rule_id):
     if not sites:
         ck.fail(o, cfb.name, "no reuse of basis addresses", "copy_file never reuses basis addresses (incremental backup lost)")
         return False
-    heur = events_of(lib, cfb, HEUR)
-    pres = presence_tests(w, cfb)
+    heur = heuristic_guards(w, cfb)
+    pres = presence_guards(w, cfb)
     if not heur:
         ck.fail(o, cfb.name, "heuristic not consulted", "content_heuristically_unchanged is not called in copy_file")
         return False
@@ -172,17 +263,19 @@ def reuse_guarded(ck, w, rule_id):
         ck.fail(o, cfb.name, "presence test missing", "no all(|a| block_dir.contains(&a.hash)) over basis_entry.addrs")
         return False
     he = set()
-    for e in heur:
-        he |= rules.bool_switch_edges(cfb, e, True)
-        a0 = flow.origins_x(lib, cfb, e.args[0])
-        a1 = flow.origins_x(lib, cfb, e.args[1])
-        if not any(x[0] == "param" and x[1] == "source_entry" for x in a0) or not any(x[0] == "param" and x[1] == "basis_entry" for x in a1):
+    for g_ in heur:
+        he |= g_.true_edges
+        a0 = flow.origins_x(lib, g_.inner_body, g_.inner_event.args[0])
+        a1 = flow.origins_x(lib, g_.inner_body, g_.inner_event.args[1])
+        if g_.inner_body is not cfb and g_.how == "call":
+            continue          # through a named helper: operands are checked where predicate_sites follows them
+        if not any(x[0] in ("param", "upvar") and x[1] == "source_entry" for x in a0) or not any(x[0] in ("param", "upvar") and x[1] == "basis_entry" for x in a1):
             ck.fail(o, cfb.name, "heuristic applied to the wrong entries",
-                    "arguments derive from %s / %s" % (flow.origin_summary(a0), flow.origin_summary(a1)), e.site())
+                    "arguments derive from %s / %s" % (flow.origin_summary(a0), flow.origin_summary(a1)), g_.site())
             return False
     pe = set()
-    for e in pres:
-        pe |= rules.bool_switch_edges(cfb, e, True)
+    for g_ in pres:
+        pe |= g_.true_edges
     good = True
     for bb, s, orig in sites:
         if not he or not cfb.must_pass_edges(he, bb):
@@ -274,13 +367,19 @@ def reuse_exactly_conditioned(ck, w, rule_id):
     if not sites:
         ck.fail(o, cfb.name, "no reuse site", "no reuse of basis addresses")
         return
-    heur = events_of(lib, cfb, HEUR)
-    pres = presence_tests(w, cfb)
+    heur_g = heuristic_guards(w, cfb)
+    pres_g = presence_guards(w, cfb)
     expected = set()
-    for e in heur + pres:
-        # the switch that branches on this event's result
-        for (u, v) in rules.bool_switch_edges(cfb, e, True):
-            expected.add(u)
+    for g_ in heur_g + pres_g:
+        # the switch(es) that branch on this test's result
+        expected |= g_.switches()
+        if g_.how != "call":
+            expected |= {u for (u, v) in _value_switch_edges(lib, cfb, g_.event, "some")}
+    pres = [g_.event for g_ in pres_g if g_.how == "call"]
+    for g_ in pres_g:
+        if g_.how != "call":
+            pres.append(g_.inner_event)
+    _pres_bodies = {id(g_.inner_event): g_.inner_body for g_ in pres_g}
     problems = []
     for bb, s, orig in sites:
         for sw in deciding_switches(cfb, bb):
@@ -295,7 +394,7 @@ def reuse_exactly_conditioned(ck, w, rule_id):
     # the presence closure must be exactly `contains(hash)`
     for e in pres:
         for a in e.args[1:]:
-            for oo in flow.origins(cfb, a):
+            for oo in flow.origins(_pres_bodies.get(id(e), cfb), a):
                 if oo[0] == "agg" and oo[1] in lib.bodies:
                     cb = lib.bodies[oo[1]]
                     from cv import pred
